@@ -19,7 +19,7 @@ SPECDIR = SPECS / "lossy"
 
 CONCS = {"str": lambda i: "k%d" % i, "int": lambda i: 500 + i, "tuple": lambda i: ("t", i),
          # keys of several types that cannot be ordered against each other
-         "mixed": lambda i: ("m%d" % i, 700 + i, ("t", i), None if i == 3 else float(i) + 0.5)[i % 4]}
+         "mixed": lambda i: {1: 0, 2: "", 5: (), 6: False if False else frozenset()}.get(i, ("m%d" % i, 700 + i, ("t", i), None if i == 3 else float(i) + 0.5)[i % 4])}
 
 
 class Driver(GenericAdapter):
@@ -48,7 +48,8 @@ class Driver(GenericAdapter):
         if op["op"] == "update_counts" and self.name == "str":
             # one call mixing the argument forms: mapping + keyword counts (a key in both adds up), iterable + keyword counts
             return ["update_map", "update_kw", "update_kwonly", "update_map_kw", "update_iter_kw"]
-        return ["add", "update_iter", "update_map", "update_kw" if self.name == "str" else "update_gen"]
+        return ["add", "update_iter", "update_map", "update_kw" if self.name == "str" else "update_gen", "add_failing", "update_failing",
+                "update_tuple", "update_iterator", "update_deque", "update_ordereddict", "update_counter", "update_iteritems_only"]
 
     def step(self, tc, op, variant):
         K = self.K
@@ -93,6 +94,28 @@ class Driver(GenericAdapter):
                 tc.update(None, **{K(ks[0]): 1})
             elif variant == "update_gen":
                 tc.update(K(k) for k in ks)
+            elif variant == "update_tuple":
+                tc.update(tuple(K(k) for k in ks))
+            elif variant == "update_iterator":
+                tc.update(iter([K(k) for k in ks]))
+            elif variant == "update_deque":
+                import collections
+                tc.update(collections.deque(K(k) for k in ks))
+            elif variant in ("update_ordereddict", "update_counter", "update_iteritems_only"):
+                import collections
+                pairs_ = []
+                for k in ks:                       # the same additions as key -> count pairs, in order of first appearance
+                    if K(k) not in [p_[0] for p_ in pairs_]:
+                        pairs_.append([K(k), ks.count(k)])
+                if variant == "update_ordereddict":
+                    tc.update(collections.OrderedDict((a_, b_) for a_, b_ in pairs_))
+                elif variant == "update_counter":
+                    tc.update(collections.Counter(dict((a_, b_) for a_, b_ in pairs_)))
+                else:
+                    class OnlyIteritems:           # the older mapping protocol the method also understands
+                        def iteritems(self_):
+                            return iter([(a_, b_) for a_, b_ in pairs_])
+                    tc.update(OnlyIteritems())
             else:
                 tc.update([K(k) for k in ks])
             r = {"e": "ok", "v": []}
@@ -138,6 +161,17 @@ class Driver(GenericAdapter):
                 why = "len"
             if why is None and list(tc.iteritems()) != items:
                 why = "iteritems"
+            if why is None and (list(zip(tc.keys(), tc.values())) != items or list(zip(tc.iterkeys(), tc.itervalues())) != items):
+                why = "keys()/values() are not aligned with items()"
+            if why is None:
+                absent = ("certainly", "absent")
+                marker = object()
+                try:
+                    tc[absent]
+                    why = "[absent] did not raise"
+                except KeyError:
+                    if tc.get(absent) != 0 or tc.get(absent, marker) is not marker or tc.get(absent, default=7) != 7 or len(tc) != o["len"] or absent in tc:
+                        why = "get(absent, default) / len after a miss"
             if why is None and sum(d.values()) != o["common"]:
                 why = "get_common_count != sum of counts"
             if why is None:
@@ -161,7 +195,9 @@ class Driver(GenericAdapter):
                 elif [c for _, c in mc] != sorted(d.values(), reverse=True):
                     why = "most_common() not sorted by descending count"
                 else:
-                    for m in (1, 2, len(d) + 3):
+                    if tc.most_common(None) != mc:
+                        why = "most_common(None)"
+                    for m in (1, 2, len(d) + 3, len(d), max(0, len(d) - 1), len(d) // 2):
                         top = tc.most_common(m)
                         if len(top) != min(m, len(d)) or [c for _, c in top] != sorted(d.values(), reverse=True)[:m] \
                                 or any(d.get(k) != c for k, c in top):
@@ -350,7 +386,16 @@ def record(n, seed, thorough, harmonic_only=False, given=None):
             s = [min(int(rng.paretovariate(1.1)), 4 * W + 5) for _ in range(n_add)]
         nkeys = max(s)
         from boltons.cacheutils import ThresholdCounter
-        tc = ThresholdCounter(threshold=real_thr if not (harmonic_only or given) else tp / tq)
+        thr_ = real_thr if not (harmonic_only or given) else tp / tq
+        if not (harmonic_only or given) and t % 11 != 10:
+            # the threshold as a Fraction / Decimal / positional argument now and then (the same number)
+            from fractions import Fraction
+            from decimal import Decimal
+            if t % 7 == 3:
+                thr_ = Fraction(tp, tq)
+            elif t % 7 == 5 and tq in (2, 4, 5, 8, 10, 20, 25, 50, 100, 1000) and tp == 1:
+                thr_ = Decimal(1) / Decimal(tq)
+        tc = ThresholdCounter(threshold=thr_) if t % 2 else ThresholdCounter(thr_)
         evs = []
         i = 0
         step = 0
@@ -372,16 +417,21 @@ def record(n, seed, thorough, harmonic_only=False, given=None):
                 kc = []
                 for k in ks:
                     if k not in [x[0] for x in kc]:
-                        kc.append([k, rng.randint(0, 3)])
+                        # now and then one key's count alone runs across one or several compactions
+                        kc.append([k, rng.randint(0, 3) if W > 60 or rng.random() < 0.7 else rng.choice([W - 1, W, W + 1, 2 * W, 3 * W + 1])])
                 op = {"op": "update_counts", "k": 0, "ks": [], "kc": kc}
             variant = rng.choice(drv.variants(op))
             if op["op"] in ("add", "update_keys") and rng.random() < 0.04:
                 variant = "add_failing" if op["op"] == "add" else "update_failing"
             if op["op"] == "update_counts" and variant not in ("update_kw", "update_kwonly", "update_map_kw", "update_iter_kw"):
                 variant = "update_map"
+            # a step that takes the total across a multiple of W compacts: every key tracked before it is read afterwards
+            n_adds = len(stream(op))
+            crossing = n_adds and (tc.total + n_adds) // W != tc.total // W
+            before_keys = [drv.dec(k_) for k_ in tc.keys()] if crossing else []
             tc, got = drv.step(tc, op, variant)
             full = (step % 25 == 0) or i >= len(s) or nkeys <= 12 or (kind == "harmonic" and nkeys <= 80)
-            touched = sorted(set(stream(op)))
+            touched = sorted(set(stream(op)) | {k_ for k_ in before_keys if k_ > 0})
             o = drv.observe(tc, got, n=nkeys, sparse=None if full else touched)
             ev = {"op": op, "variant": variant, "r": got["r"], "full": full}
             if "raised" in o or got["r"]["e"] != "ok":
